@@ -25,10 +25,9 @@ import (
 )
 
 const (
-	Prop        = "v"
-	GProp       = "g"
-	IndexBucket = "index/vectorVamana/v"
-	EntryId     = 1 // vamana.STARTID
+	EntryId = 1 // vamana.STARTID
+	SibKey  = "s" // a field beside the vector leaf (same parent object); not indexed
+	TagKey  = "t" // a top-level field that no index knows
 )
 
 // ------------------------------------------------------------------------------------ config
@@ -42,7 +41,39 @@ type Config struct {
 	Quant   string // none | binfix | binlearn | pq
 	Trigger int
 	Cache   int64 // cache manager size: -1 unlimited (warm), 0 none (cold on every request)
+	// Index schema keys: the property path of the vector index and of the integer index that serves the
+	// pre-filters. A dotted path ("n.v", "n.m.v") indexes a NESTED property: the schema key is the path,
+	// the documents (and every update, which merges top-level keys only) carry the top-level object.
+	VPath string
+	GPath string
 }
+
+func (c Config) VProp() string {
+	if c.VPath == "" {
+		return "v"
+	}
+	return c.VPath
+}
+
+func (c Config) GProp() string {
+	if c.GPath == "" {
+		return "g"
+	}
+	return c.GPath
+}
+
+// PlainStore: the index keeps the raw vectors (n<id>v, rewritten by every Set) and nothing else.
+func (c Config) PlainStore() bool {
+	return c.Quant == "none" && c.Metric != "hamming" && c.Metric != "jaccard"
+}
+
+func (c Config) Bucket() string { return "index/vectorVamana/" + c.VProp() }
+
+func (c Config) vSegs() []string { return strings.Split(c.VProp(), ".") }
+func (c Config) gSegs() []string { return strings.Split(c.GProp(), ".") }
+
+// Nested: the vector leaf lives inside an object (the update's top-level key is not the schema key).
+func (c Config) Nested() bool { return len(c.vSegs()) > 1 }
 
 func f32hex(f float32) string { return fmt.Sprintf("%08x", math.Float32bits(f)) }
 func hexf32(s string) (float32, error) {
@@ -51,7 +82,7 @@ func hexf32(s string) (float32, error) {
 }
 
 func (c Config) Line() string {
-	return fmt.Sprintf("cfg metric=%s dim=%d R=%d ss=%d alpha=%s quant=%s trig=%d cache=%d", c.Metric, c.Dim, c.R, c.SS, f32hex(c.Alpha), c.Quant, c.Trigger, c.Cache)
+	return fmt.Sprintf("cfg metric=%s dim=%d R=%d ss=%d alpha=%s quant=%s trig=%d cache=%d vp=%s gp=%s", c.Metric, c.Dim, c.R, c.SS, f32hex(c.Alpha), c.Quant, c.Trigger, c.Cache, c.VProp(), c.GProp())
 }
 
 func kv(line string) (string, map[string]string) {
@@ -86,6 +117,7 @@ func ParseConfig(line string) (Config, error) {
 	c.Quant = m["quant"]
 	c.Trigger, _ = strconv.Atoi(m["trig"])
 	c.Cache, _ = strconv.ParseInt(m["cache"], 10, 64)
+	c.VPath, c.GPath = m["vp"], m["gp"] // absent (older replays): the flat schema v / g
 	return c, nil
 }
 
@@ -105,9 +137,9 @@ func (c Config) quantizer() *models.Quantizer {
 func (c Config) Collection() models.Collection {
 	return models.Collection{UserId: "verif", Id: "c", Replicas: 1,
 		IndexSchema: models.IndexSchema{
-			Prop: models.IndexSchemaValue{Type: models.IndexTypeVectorVamana, VectorVamana: &models.IndexVectorVamanaParameters{
+			c.VProp(): models.IndexSchemaValue{Type: models.IndexTypeVectorVamana, VectorVamana: &models.IndexVectorVamanaParameters{
 				VectorSize: uint(c.Dim), DistanceMetric: c.Metric, SearchSize: c.SS, DegreeBound: c.R, Alpha: c.Alpha, Quantizer: c.quantizer()}},
-			GProp: models.IndexSchemaValue{Type: models.IndexTypeInteger},
+			c.GProp(): models.IndexSchemaValue{Type: models.IndexTypeInteger},
 		},
 		UserPlan: models.UserPlan{Name: "verif", MaxCollections: 1, MaxCollectionPointCount: 1 << 20, MaxPointSize: 1 << 20},
 	}
@@ -118,11 +150,37 @@ func (c Config) Collection() models.Collection {
 // PC: what one element of a batch does to point Idx.
 type PC struct {
 	Idx  int
-	VSet bool      // the document sets v to V
-	VDel bool      // update only: v: "_delete"
+	VSet bool      // the document sets the vector leaf to V
+	VDel bool      // update only: <top-level key of the vector path>: "_delete"
+	VNil bool      // the document sets the vector leaf to nil (msgpack nil: "no value")
+	VObj bool      // nested paths: the parent object(s) of the leaf are present, the leaf itself is not
+	Sib  bool      // a field beside the leaf (nested: inside the leaf's parent object, which therefore is present)
+	Tag  bool      // an unrelated top-level field
 	V    []float32 // when VSet
 	GSet bool
 	G    int64
+}
+
+// vTok: the vector column of an op line.
+func (p PC) vTok() string {
+	v := "-"
+	switch {
+	case p.VSet:
+		v = vecStr(p.V)
+	case p.VDel:
+		v = "D"
+	case p.VNil:
+		v = "N"
+	case p.VObj:
+		v = "O"
+	}
+	if p.Sib {
+		v += "+s"
+	}
+	if p.Tag {
+		v += "+t"
+	}
+	return v
 }
 
 type Qry struct {
@@ -168,12 +226,7 @@ func (o Op) Line() string {
 	switch o.Kind {
 	case "ins", "upd":
 		for _, p := range o.Pts {
-			v := "-"
-			if p.VSet {
-				v = vecStr(p.V)
-			} else if p.VDel {
-				v = "D"
-			}
+			v := p.vTok()
 			g := "-"
 			if p.GSet {
 				g = strconv.FormatInt(p.G, 10)
@@ -209,10 +262,22 @@ func ParseOp(line string) (Op, error) {
 			}
 			var p PC
 			p.Idx, _ = strconv.Atoi(ps[0])
+			for strings.HasSuffix(ps[1], "+s") || strings.HasSuffix(ps[1], "+t") {
+				if strings.HasSuffix(ps[1], "+s") {
+					p.Sib = true
+				} else {
+					p.Tag = true
+				}
+				ps[1] = ps[1][:len(ps[1])-2]
+			}
 			switch ps[1] {
 			case "-":
 			case "D":
 				p.VDel = true
+			case "N":
+				p.VNil = true
+			case "O":
+				p.VObj = true
 			default:
 				v, err := parseVec(ps[1])
 				if err != nil {
@@ -294,17 +359,97 @@ func (s *Sim) Close() {
 	os.RemoveAll(s.Dir)
 }
 
-func docOf(p PC) map[string]any {
-	m := map[string]any{}
-	if p.VSet {
-		m[Prop] = p.V
-	} else if p.VDel {
-		m[Prop] = shard.DELETEVALUE
-	}
-	if p.GSet {
-		m[GProp] = p.G
+// objAt walks / creates the objects along segs inside m and returns the innermost one (nil when a
+// non-object is in the way, e.g. the top-level key was set to "_delete").
+func objAt(m map[string]any, segs []string) map[string]any {
+	for _, k := range segs {
+		x, ok := m[k]
+		if !ok {
+			n := map[string]any{}
+			m[k] = n
+			m = n
+			continue
+		}
+		n, ok := x.(map[string]any)
+		if !ok {
+			return nil
+		}
+		m = n
 	}
 	return m
+}
+
+// DocOf: the document (insert) or the incoming partial document (update) of one batch element.
+func (c Config) DocOf(p PC) map[string]any {
+	m := map[string]any{}
+	vs, gs := c.vSegs(), c.gSegs()
+	leaf, par := vs[len(vs)-1], vs[:len(vs)-1]
+	if p.VDel {
+		m[vs[0]] = shard.DELETEVALUE
+	}
+	if p.VSet || p.VNil || p.VObj || p.Sib {
+		// VObj: the walk creates the parent objects and puts nothing inside
+		if o := objAt(m, par); o != nil {
+			if p.VSet {
+				o[leaf] = p.V
+			} else if p.VNil {
+				o[leaf] = nil
+			}
+			if p.Sib {
+				o[SibKey] = int64(1)
+			}
+		}
+	}
+	if p.GSet {
+		if o := objAt(m, gs[:len(gs)-1]); o != nil {
+			o[gs[len(gs)-1]] = p.G
+		}
+	}
+	if p.Tag {
+		m[TagKey] = int64(1)
+	}
+	return m
+}
+
+// TouchesVector: the element carries the top-level key under which the vector leaf lives (an update
+// replaces that whole top-level value, whatever else is inside it).
+func (c Config) TouchesVector(p PC) bool {
+	_, ok := c.DocOf(p)[c.vSegs()[0]]
+	return ok
+}
+
+// MergeTop: the shard's update semantics — top-level keys of the incoming document replace the stored
+// ones, the string "_delete" removes the key.
+func MergeTop(old, inc map[string]any) map[string]any {
+	r := map[string]any{}
+	for k, v := range old {
+		r[k] = v
+	}
+	for k, v := range inc {
+		if s, ok := v.(string); ok && s == shard.DELETEVALUE {
+			delete(r, k)
+		} else {
+			r[k] = v
+		}
+	}
+	return r
+}
+
+// LookupPath: the value a dotted path selects in a decoded document (nil: absent or msgpack nil —
+// the index dispatcher does not distinguish the two).
+func LookupPath(m map[string]any, segs []string) any {
+	var cur any = m
+	for _, k := range segs {
+		o, ok := cur.(map[string]any)
+		if !ok {
+			return nil
+		}
+		cur, ok = o[k]
+		if !ok {
+			return nil
+		}
+	}
+	return cur
 }
 
 // Apply executes one write batch on the real shard.
@@ -313,7 +458,7 @@ func (s *Sim) Apply(o Op) error {
 	case "ins", "upd":
 		pts := make([]models.Point, len(o.Pts))
 		for i, p := range o.Pts {
-			b, err := msgpack.Marshal(docOf(p))
+			b, err := msgpack.Marshal(s.Cfg.DocOf(p))
 			if err != nil {
 				return err
 			}
@@ -344,7 +489,10 @@ type Dump struct {
 	Quant    string // fingerprint of the persisted quantiser parameters
 	NodeUUID map[uint64]uuid.UUID
 	UUIDNode map[uuid.UUID]uint64
-	HasField map[uint64]bool // node id -> the stored document has the vector property
+	HasField map[uint64]bool // node id -> the stored document has the vector property (at the schema's path)
+	DocVec   map[uint64][]float32 // node id -> the vector the stored document carries at that path
+	RawVec   map[uint64][]float32 // node id -> the raw vector persisted in the index (n<id>v), when there is one
+	Docs     map[uint64]map[string]any // node id -> the decoded stored document
 	HasDoc   map[uint64]bool
 	GVal     map[uint64]int64
 	Free     []uint64
@@ -356,9 +504,9 @@ type Dump struct {
 
 func (s *Sim) Dump() (*Dump, error) {
 	d := &Dump{Nodes: map[uint64][]uint64{}, Vecs: map[uint64]bool{}, NodeUUID: map[uint64]uuid.UUID{}, UUIDNode: map[uuid.UUID]uint64{},
-		HasField: map[uint64]bool{}, HasDoc: map[uint64]bool{}, GVal: map[uint64]int64{}, NextFree: 2}
+		HasField: map[uint64]bool{}, DocVec: map[uint64][]float32{}, RawVec: map[uint64][]float32{}, Docs: map[uint64]map[string]any{}, HasDoc: map[uint64]bool{}, GVal: map[uint64]int64{}, NextFree: 2}
 	err := s.Sh.VerifDB().Read(func(bm diskstore.BucketManager) error {
-		b, err := bm.Get(IndexBucket)
+		b, err := bm.Get(s.Cfg.Bucket())
 		if err != nil {
 			return err
 		}
@@ -373,6 +521,7 @@ func (s *Sim) Dump() (*Dump, error) {
 			}
 			if id, ok := conversion.NodeIdFromKey(k, 'v'); ok {
 				d.Vecs[id] = true
+				d.RawVec[id] = append([]float32{}, conversion.BytesToFloat32(append([]byte{}, v...))...)
 				return nil
 			}
 			if id, ok := conversion.NodeIdFromKey(k, 'q'); ok {
@@ -422,10 +571,27 @@ func (s *Sim) Dump() (*Dump, error) {
 					d.Problems = append(d.Problems, fmt.Sprintf("document of node %d does not decode", id))
 					return nil
 				}
-				if x, ok := m[Prop]; ok && x != nil {
+				d.Docs[id] = m
+				if x := LookupPath(m, s.Cfg.vSegs()); x != nil {
 					d.HasField[id] = true
+					if arr, ok := x.([]any); ok {
+						vec := make([]float32, 0, len(arr))
+						for _, e := range arr {
+							switch t := e.(type) {
+							case float32:
+								vec = append(vec, t)
+							case float64:
+								vec = append(vec, float32(t))
+							default:
+								d.Problems = append(d.Problems, fmt.Sprintf("document of node %d: vector element %T", id, e))
+							}
+						}
+						d.DocVec[id] = vec
+					} else {
+						d.Problems = append(d.Problems, fmt.Sprintf("document of node %d: the vector property is a %T", id, x))
+					}
 				}
-				if x, ok := m[GProp]; ok {
+				if x := LookupPath(m, s.Cfg.gSegs()); x != nil {
 					switch t := x.(type) {
 					case int64:
 						d.GVal[id] = t
@@ -643,7 +809,7 @@ func FKey(f float32) uint32 {
 // WithStore opens the repository's vector store on the persisted index bucket (read transaction).
 func (s *Sim) WithStore(fn func(st vectorstore.VectorStore) error) error {
 	return s.Sh.VerifDB().Read(func(bm diskstore.BucketManager) error {
-		b, err := bm.Get(IndexBucket)
+		b, err := bm.Get(s.Cfg.Bucket())
 		if err != nil {
 			return err
 		}
@@ -670,6 +836,162 @@ func (s *Sim) QueryDists(q []float32, ids []uint64) (map[uint64]float32, error) 
 		return nil
 	})
 	return r, err
+}
+
+// DocDists: the index's distance between the query and the vector each live point's DOCUMENT carries:
+// the vector is handed to a scratch instance of the repository's vector store opened on the persisted
+// bucket (so it is encoded by the quantiser as trained right now, or kept raw before training) and
+// DistanceFromFloat(q) is evaluated on that point. Nothing is flushed.
+//
+// A TRAINED product quantiser needs care: the points present at training time carry the k-means
+// labels (euclidean assignment), later Sets the nearest centroid under the configured metric, so
+// re-encoding a document's vector reproduces the stored code only for vectors set after the training
+// (and the raw vectors persisted beside the codes are no reference either: KMeans initialises its
+// centroids as sub-slices of the data and averages into them, see notes/C03.md). There only the nodes
+// in `postTrain` are judged: those whose document vector changed in a batch that started with the
+// quantiser already trained — an index in step has re-encoded exactly those with `encode`.
+func (s *Sim) DocDists(q []float32, d *Dump, postTrain map[uint64]bool) (map[uint64]float32, error) {
+	r := map[uint64]float32{}
+	trainedPQ := s.Cfg.Quant == "pq" && d.Quant != ""
+	err := s.WithStore(func(st vectorstore.VectorStore) error {
+		fn := st.DistanceFromFloat(q)
+		for _, id := range d.Live() {
+			vec, ok := d.DocVec[id]
+			if !ok || len(vec) != s.Cfg.Dim || (trainedPQ && !postTrain[id]) {
+				continue
+			}
+			p, err := st.Set(id, vec)
+			if err != nil {
+				return fmt.Errorf("scratch vector %d: %w", id, err)
+			}
+			r[id] = fn(p)
+		}
+		return nil
+	})
+	return r, err
+}
+
+// ------------------------------------------------------------------------------------ flattened documents (model lines)
+
+// VecTags names vectors by small numbers within one model line.
+type VecTags map[string]int
+
+func (t VecTags) Of(v []float32) int {
+	k := vecStr(v)
+	if n, ok := t[k]; ok {
+		return n
+	}
+	n := len(t) + 1
+	t[k] = n
+	return n
+}
+
+func asVec(x any) ([]float32, bool) {
+	switch a := x.(type) {
+	case []float32:
+		return a, true
+	case []any:
+		if len(a) == 0 {
+			return nil, false
+		}
+		v := make([]float32, len(a))
+		for i, e := range a {
+			f, ok := e.(float32)
+			if !ok {
+				return nil, false
+			}
+			v[i] = f
+		}
+		return v, true
+	}
+	return nil, false
+}
+
+// FlatDoc: one "path:leaf" entry per leaf of the document, paths as the key bytes joined by '.', sorted;
+// leaves N (nil) D ("_delete") V<tag> (float32 array) O (empty object) X (anything else). "{}": empty.
+func FlatDoc(m map[string]any, tags VecTags) string {
+	type ent struct {
+		path []int
+		s    string
+	}
+	var es []ent
+	var walk func(prefix []int, m map[string]any)
+	walk = func(prefix []int, m map[string]any) {
+		for k, x := range m {
+			p := append(append([]int{}, prefix...), keyCode(k))
+			leaf := "X"
+			switch t := x.(type) {
+			case nil:
+				leaf = "N"
+			case string:
+				if t == shard.DELETEVALUE {
+					leaf = "D"
+				}
+			case map[string]any:
+				if len(t) > 0 {
+					walk(p, t)
+					continue
+				}
+				leaf = "O"
+			default:
+				if v, ok := asVec(x); ok {
+					leaf = "V" + strconv.Itoa(tags.Of(v))
+				}
+			}
+			es = append(es, ent{p, leaf})
+		}
+	}
+	walk(nil, m)
+	sort.Slice(es, func(i, j int) bool {
+		a, b := es[i].path, es[j].path
+		for k := 0; k < len(a) && k < len(b); k++ {
+			if a[k] != b[k] {
+				return a[k] < b[k]
+			}
+		}
+		return len(a) < len(b)
+	})
+	if len(es) == 0 {
+		return "{}"
+	}
+	out := make([]string, len(es))
+	for i, e := range es {
+		ps := make([]string, len(e.path))
+		for k, c := range e.path {
+			ps[k] = strconv.Itoa(c)
+		}
+		out[i] = strings.Join(ps, ".") + ":" + e.s
+	}
+	return strings.Join(out, ",")
+}
+
+// keyCode: document keys are single letters in this harness; the model's keys are numbers.
+func keyCode(k string) int {
+	c := 0
+	for _, b := range []byte(k) {
+		c = c*256 + int(b)
+	}
+	return c
+}
+
+func (c Config) PathCodes() string {
+	var ps []string
+	for _, k := range c.vSegs() {
+		ps = append(ps, strconv.Itoa(keyCode(k)))
+	}
+	return strings.Join(ps, ".")
+}
+
+func sameVec(a, b []float32) bool {
+	if len(a) != len(b) {
+		return false
+	}
+	for i := range a {
+		if math.Float32bits(a[i]) != math.Float32bits(b[i]) {
+			return false
+		}
+	}
+	return true
 }
 
 // PairDists: DistanceFromPoint(a)(b) for all pairs of stored vectors.
